@@ -247,8 +247,8 @@ type RunConfig struct {
 func solveAll(obls []*Obligation, cfg RunConfig) {
 	os.MkdirAll(cfg.WorkDir, 0o755)
 	// block covers run one solver process each: a wider pool for them
-	solvePass(obls, cfg, cfg.Parallel, func(o *Obligation) bool { return !(o.Cover && strings.Contains(o.Name, ":block#")) })
-	solvePass(obls, cfg, cfg.Parallel*4, func(o *Obligation) bool { return o.Cover && strings.Contains(o.Name, ":block#") })
+	solvePass(obls, cfg, cfg.Parallel, func(o *Obligation) bool { return !(o.Cover && (strings.Contains(o.Name, ":block#") || strings.Contains(o.Name, " block#"))) })
+	solvePass(obls, cfg, cfg.Parallel*4, func(o *Obligation) bool { return o.Cover && (strings.Contains(o.Name, ":block#") || strings.Contains(o.Name, " block#")) })
 }
 
 func solvePass(obls []*Obligation, cfg RunConfig, par int, want func(*Obligation) bool) {
@@ -286,7 +286,7 @@ func solveOne(i int, o *Obligation, cfg RunConfig) {
 	if o.Cover && budget > 4*time.Second {
 		budget = 4 * time.Second // a contradiction shows up at once; 'unknown' is the usual answer
 	}
-	if o.Cover && strings.Contains(o.Name, ":block#") {
+	if o.Cover && (strings.Contains(o.Name, ":block#") || strings.Contains(o.Name, " block#")) {
 		budget = 1500 * time.Millisecond
 		solvers = []string{"z3-new"}
 	}
